@@ -19,6 +19,8 @@ type WOp struct {
 	ID    int    `json:"id,omitempty"`
 	N     int    `json:"n,omitempty"`
 	Gated bool   `json:"gated,omitempty"`
+	Via   string `json:"via,omitempty"`    // call: "" Call | "wrap" Wrap(n, fn)() ; bad: which invalid use
+	MinUs int    `json:"min_us,omitempty"` // call: the function is wrapped in MinDuration(min, fn)
 }
 
 type WScenario struct {
@@ -71,20 +73,35 @@ func (x *wrkExec) do(g string, op WOp) {
 		r.Call(g, "Call", "id", op.ID, "n", op.N, "gated", op.Gated, "want", want)
 		var v interface{}
 		var err error
+		fn := func() (interface{}, error) {
+			r.Add(rec.Ev{"ev": "fnstart", "id": op.ID})
+			if op.Gated {
+				ctl.Gate("drv.fn.wait")
+				<-c
+			}
+			ctl.Gate("drv.fn.end")
+			r.Add(rec.Ev{"ev": "fnend", "id": op.ID})
+			if want == "err" {
+				return op.ID * 10, errors.New("e")
+			}
+			return op.ID * 10, nil
+		}
+		if op.MinUs > 0 {
+			// MinDuration: the wrapped function takes at least the duration and passes value and error through
+			inner := bigbuff.MinDuration(time.Duration(op.MinUs)*time.Microsecond, fn)
+			fn = func() (interface{}, error) {
+				t0 := time.Now()
+				v, err := inner()
+				r.Add(rec.Ev{"ev": "fnspan", "id": op.ID, "dur_ns": time.Since(t0).Nanoseconds(), "min_us": op.MinUs})
+				return v, err
+			}
+		}
 		p := safeCall(func() {
-			v, err = x.w.Call(op.N, func() (interface{}, error) {
-				r.Add(rec.Ev{"ev": "fnstart", "id": op.ID})
-				if op.Gated {
-					ctl.Gate("drv.fn.wait")
-					<-c
-				}
-				ctl.Gate("drv.fn.end")
-				r.Add(rec.Ev{"ev": "fnend", "id": op.ID})
-				if want == "err" {
-					return op.ID * 10, errors.New("e")
-				}
-				return op.ID * 10, nil
-			})
+			if op.Via == "wrap" {
+				v, err = x.w.Wrap(op.N, fn)()
+			} else {
+				v, err = x.w.Call(op.N, fn)
+			}
 		})
 		iv, _ := v.(int)
 		res := "ok"
@@ -94,6 +111,30 @@ func (x *wrkExec) do(g string, op WOp) {
 			res = "err"
 		}
 		r.Ret(g, "Call", "r", res, "v", iv, "msg", p)
+	case "bad":
+		// invalid use must panic and must not have any effect
+		ctl.Gate("drv.call")
+		ran := false
+		fn := func() (interface{}, error) { ran = true; return nil, nil }
+		p := safeCall(func() {
+			switch op.Via {
+			case "call0":
+				x.w.Call(0, fn)
+			case "callneg":
+				x.w.Call(-1, fn)
+			case "callnil":
+				x.w.Call(1, nil)
+			case "wrap0":
+				x.w.Wrap(0, fn)
+			case "wrapnil":
+				x.w.Wrap(2, nil)
+			case "min0":
+				bigbuff.MinDuration(0, fn)
+			case "minnil":
+				bigbuff.MinDuration(time.Millisecond, nil)
+			}
+		})
+		r.Add(rec.Ev{"ev": "bad", "g": g, "via": op.Via, "panicked": p != "", "ran": ran})
 	case "release":
 		x.release(g, op.ID)
 	case "wait":
@@ -151,7 +192,17 @@ func genWrkScenario(rng *rand.Rand, profile, mode string) any {
 			switch {
 			case r < 62:
 				id++
-				ops = append(ops, WOp{K: "call", ID: id, N: 1 + rng.Intn(3), Gated: rng.Intn(2) == 0})
+				op := WOp{K: "call", ID: id, N: 1 + rng.Intn(3), Gated: rng.Intn(2) == 0}
+				if rng.Intn(3) == 0 {
+					op.Via = "wrap"
+				}
+				if rng.Intn(5) == 0 {
+					op.MinUs = []int{100, 400, 1000}[rng.Intn(3)]
+				}
+				ops = append(ops, op)
+				if rng.Intn(12) == 0 {
+					ops = append(ops, WOp{K: "bad", Via: []string{"call0", "callneg", "callnil", "wrap0", "wrapnil", "min0", "minnil"}[rng.Intn(7)]})
+				}
 			case r < 82 && id > 0:
 				ops = append(ops, WOp{K: "release", ID: 1 + rng.Intn(id+2)})
 			case r < 90:
